@@ -8,6 +8,7 @@
   for `pos = 0` the machine lands on the table label standing before the instruction).
 -/
 import Scc.RV.RefLet
+import Scc.RV.RefCloHeap
 
 set_option linter.unusedVariables false
 set_option linter.unusedSimpArgs false
@@ -272,7 +273,7 @@ theorem toNat_table_addr {n pos : Nat} (h : n + 4 * pos < 2 ^ 64) :
 
 section Switch3
 
-variable {mc : MonCfg} {α : Word → Word} {pr : RV.Program} {ks : List Code} (L : Loaded pr ks)
+variable {mc : MonCfg} {cw : Nat → Word} {τ : Nat → Nat → Word} {pr : RV.Program} {ks : List Code} (L : Loaded pr ks)
   (hnd : (labs ks).Nodup) (hheap : mc.heap = false) (hfitX : codeBase + 4 * icount ks < 2 ^ 64)
 
 include L hnd hheap hfitX in
@@ -280,7 +281,7 @@ include L hnd hheap hfitX in
 theorem switch_nav_rv {hooks : Bool} {types : List TypeDecl} {Γ' : Ctx} {b : Binding} {cfg : Config}
     {hs : HState} {ι : Nat → Nat} {st : State} {x : Ident} {ty : Ty} {clauses : Clauses} {fv : FV}
     {pos : Nat} {c : Clause}
-    (X : X3 mc α (Γ' ++ [b]) cfg hs ι st)
+    (X : X3 mc cw τ (Γ' ++ [b]) cfg hs ι st)
     (hb : b.var.id = x.id) (hfresh : ∀ b' ∈ Γ', b'.var.id ≠ x.id)
     (hclause : nthClause clauses pos = some c)
     (hword : cfg.temps.get (2 * Γ'.length + 1) = some (BitVec.ofNat 64 pos)) (hbchi : b.chi = .prd)
@@ -288,7 +289,7 @@ theorem switch_nav_rv {hooks : Bool} {types : List TypeDecl} {Γ' : Ctx} {b : Bi
     (hrun : (codeStatementR rvBackend hooks natRen types (.switch x ty clauses fv) (Γ' ++ [b])).run k =
       .ok (items, k'))
     (hat : KAt ks st.pc items) :
-    ∃ st4 kl kl' lcode kb' body, Reach pr mc st st4 ∧ X3 mc α (Γ' ++ [b]) cfg hs ι st4 ∧
+    ∃ st4 kl kl' lcode kb' body, Reach pr mc st st4 ∧ X3 mc cw τ (Γ' ++ [b]) cfg hs ι st4 ∧
       (load c.ctx Γ').run kl = .ok (lcode, kl') ∧
       (codeStatementR rvBackend hooks natRen types c.body (Γ' ++ c.ctx)).run kl' = .ok (body, kb') ∧
       KAt ks st4.pc (lcode ++ body) := by
@@ -366,7 +367,7 @@ theorem switch_nav_rv {hooks : Bool} {types : List TypeDecl} {Γ' : Ctx} {b : Bi
       simpa [List.append_assoc] using hat
     -- (i) the comments
     obtain ⟨pca, ka, hra, hata⟩ := pass_comments L hnd hheap hatA hc0c
-    have Xa : X3 mc α (Γ' ++ [b]) cfg hs ι (setPS st pca ka) := X3R.setPS X _ _
+    have Xa : X3 mc cw τ (Γ' ++ [b]) cfg hs ι (setPS st pca ka) := X3R.setPS X _ _
     replace hata : KAt ks (setPS st pca ka).pc ([Code.LA TEMP lbl, Code.ADD TEMP TEMP (posTemp (2 * Γ'.length + 1))] ++
         (Code.JALR ZERO TEMP 0 :: (Code.LAB lbl :: (table ++ (pre ++ Code.LAB (clauseLabel lbl c.xtor) ::
           (lcode ++ (body ++ post))))))) := hata
@@ -450,7 +451,7 @@ theorem switch_nav_rv {hooks : Bool} {types : List TypeDecl} {Γ' : Ctx} {b : Bi
       rw [← hsb]; exact readReg_writeReg_same (writeReg_wf hwf TEMP _) temp_usable _
     obtain ⟨pcb, kb, hrb', hatb⟩ := exec_block L hnd hheap hata
       (fun y hy => by simp at hy; rcases hy with rfl | rfl <;> rfl) (by simp) (execFwd_two hex1 hex2)
-    have Xb : X3 mc α (Γ' ++ [b]) cfg hs ι (setPS sb pcb kb) :=
+    have Xb : X3 mc cw τ (Γ' ++ [b]) cfg hs ι (setPS sb pcb kb) :=
       X3R.setPS (X3R.keep Xa hKb (fun t _ => by simp [posReg]) (by decide) (by decide)) _ _
     -- (iii) the jump through TEMP lands on the table entry
     have hjx : ∀ a', exec mc pr.labelAddr a' (Code.JALR ZERO TEMP 0) (setPS sb pcb kb) =
@@ -499,7 +500,7 @@ theorem switch_nav_rv {hooks : Bool} {types : List TypeDecl} {Γ' : Ctx} {b : Bi
         rw [hp]
         exact Reach.refl _ _ _
     generalize hsc : setPS (setPS sb pcb kb) (iJ + 1 + 1 + pos) ((setPS sb pcb kb).steps + 1) = sc at hland
-    have Xc : X3 mc α (Γ' ++ [b]) cfg hs ι sc := by rw [← hsc]; exact X3R.setPS Xb _ _
+    have Xc : X3 mc cw τ (Γ' ++ [b]) cfg hs ι sc := by rw [← hsc]; exact X3R.setPS Xb _ _
     have hscpc : sc.pc = iJ + 1 + 1 + pos := by rw [← hsc]; rfl
     -- (iv) the table entry jumps to the clause
     have hatE : KAt ks sc.pc (Code.JAL ZERO (clauseLabel lbl c.xtor) :: []) := by
@@ -537,16 +538,21 @@ theorem switch_x3 {P : Abs.Program} {hooks : Bool} {prog : AxCut.Prog} {Γ' : Ct
     (hclause : nthClause clauses pos = some c)
     (hkinds : fields.map Sim2.kindOf = Mock.kindsOf c.ctx)
     (hcap : 2 * (Γ'.length + c.ctx.length) + 2 < Mock.T_TEMP)
-    {hs : HState} {ι : Nat → Nat} {st : State} (X : X3 mc α (Γ' ++ [b]) cfg hs ι st)
+    {hs : HState} {ι : Nat → Nat} {st : State} (X : X3 mc cw τ (Γ' ++ [b]) cfg hs ι st)
     {k k' : Nat} {items : List Code}
     (hrun : (codeStatementR rvBackend hooks natRen prog.types (.switch x ty clauses fv) (Γ' ++ [b])).run k =
       .ok (items, k'))
     (hat : KAt ks st.pc items)
-    (hcapX : Γ'.length + c.ctx.length ≤ 14) :
+    (hcapX : Γ'.length + c.ctx.length ≤ 14)
+    {Q : Word → Ctx → Clauses → Prop}
+    (CVh : CVals P hooks prog.types Q cw τ cfg.heap cfg.temps (Γ' ++ [b]) (ρ' ++ [.obj pos fields])) :
     ∃ kk cfg' st' hs', stepsTo P kk cfg cfg' ∧ Reach pr mc st st' ∧ FrLe hs hs' 0 ∧
       cfg'.out = cfg.out ∧ cfg'.next = cfg.next ∧
       RelX P hooks prog ⟨Γ' ++ c.ctx, ρ' ++ fields, c.body⟩ cfg' ∧
-      X3 mc α (Γ' ++ c.ctx) cfg' hs' ι st' ∧
+      (∃ r, cfg.temps.get (2 * Γ'.length) = some r ∧
+        X3 mc (loadCw cw Γ'.length (τ r.toNat)) τ (Γ' ++ c.ctx) cfg' hs' ι st' ∧
+        CVals P hooks prog.types Q (loadCw cw Γ'.length (τ r.toNat)) τ cfg'.heap cfg'.temps (Γ' ++ c.ctx)
+          (ρ' ++ fields)) ∧
       ∃ k1 k1' items', (codeStatementR rvBackend hooks natRen prog.types c.body (Γ' ++ c.ctx)).run k1 =
           .ok (items', k1') ∧ KAt ks st'.pc items' := by
   obtain ⟨k4, cfg4, r, hst4, h4heap, h4next, h4out, h4temps, hloadM, hcode, hr, hB, hword, hbchi⟩ :=
@@ -557,6 +563,12 @@ theorem switch_x3 {P : Abs.Program} {hooks : Bool} {prog : AxCut.Prog} {Γ' : Ct
   obtain ⟨cfg', hstep, hout', hnext', R'⟩ := load_enter (Γ'' := Γ') (s' := c.body) (cfg4 := cfg4) R rfl hbne hr
     hB hkinds hcap h4heap h4next h4out h4temps hloadM hcode
   have hn1 : Γ'.length < (Γ' ++ [b]).length := by simp
+  have hlenρ : ρ'.length = Γ'.length := by have := R.len; simpa using this
+  -- the closures of the remaining positions
+  have CV0 : CVals P hooks prog.types Q cw τ cfg.heap cfg.temps Γ' ρ' := by
+    have := CVh.take Γ'.length
+    rw [List.take_left' rfl, List.take_left' hlenρ] at this
+    exact this
   cases hctx : c.ctx with
   | nil =>
     -- no field: nothing is loaded, no code
@@ -588,12 +600,18 @@ theorem switch_x3 {P : Abs.Program} {hooks : Bool} {prog : AxCut.Prog} {Γ' : Ct
         rw [hA]
         simp only
         rw [get_clobberTemp _ (by unfold Mock.T_TEMP; omega), h4temps t ht]
-      rw [List.append_nil]
-      refine ⟨X4.bnd, by omega, ?_, ?_, X4.hrel, ?_⟩
+      rw [List.append_nil, List.append_nil]
+      refine ⟨_, hr, ⟨X4.bnd, by omega, ?_, ?_, X4.hrel, ?_⟩, ?_⟩
+      rotate_right
+      · have e1 : cfg'.heap = cfg.heap := by rw [hA]; exact h4heap
+        rw [e1]
+        exact CV0.congr (fun t ht => hlow t (by omega)) (fun i hi => by simp only [loadCw]; rw [if_pos hi])
       · intro i hi a ha
         rw [hlow _ (by omega)] at ha
         have := X4.words i (by simp; omega) a ha
         rw [List.getElem_append_left hi] at this
+        simp only [loadCw]
+        rw [if_pos hi]
         exact this
       · intro i hi hc r' hr'
         rw [hlow _ (by omega)] at hr'
@@ -665,7 +683,38 @@ theorem switch_x3 {P : Abs.Program} {hooks : Bool} {prog : AxCut.Prog} {Γ' : Ct
       refine ⟨k4 + 1, cfg', setPS st5 pc5 steps5, hs', stepsTo_trans P _ _ _ _ _ hst4 (stepsTo_one P _ _ hstep),
         hn4.trans hn5, hfrL, hout', hnext', ?_, ?_, kl', kb', body, ?_, hat5⟩
       · rw [← hctx]; exact R'
-      · rw [← hctx]; exact X3R.setPS X5 _ _
+      · rw [← hctx]
+        refine ⟨r, hr, X3R.setPS X5 _ _, ?_⟩
+        -- the closures: those of the remaining positions, and those of the fields loaded
+        have hcv := CVh Γ'.length hn1 (by simp [hlenρ])
+        have g1 : (Γ' ++ [b])[Γ'.length] = b := by simp
+        have g2 : (ρ' ++ [Value.obj pos (v :: vs)])[Γ'.length]'(by simp [hlenρ]) = .obj pos (v :: vs) := by
+          rw [List.getElem_append_right (by omega)]; simp [hlenρ]
+        simp only [g1, g2] at hcv
+        have hbe : (b.chi == .ext) = false := (Scc.Backend.Sim2.chi_beq_ext_false _).mpr hbne
+        simp only [hbe, Bool.false_eq_true, if_false, hr] at hcv
+        obtain ⟨r', hr', hCB, _⟩ := hcv.obj_inv
+        injection hr' with hr'
+        subst hr'
+        cases hCB with
+        | block _ _ _ o' _ hg' hF' =>
+          rw [hg] at hg'
+          injection hg' with hg'
+          subst hg'
+          have hroots : roots (Γ' ++ [b]) cfg.temps = roots Γ' cfg.temps ++ [r.toNat] := by
+            rw [Scc.Backend.Sim2.roots_snoc]
+            congr 1
+            unfold Scc.Backend.Sim2.rootOf
+            have h1 : (b.chi != Chi.ext) = true := (Scc.Backend.Sim2.chi_bne_ext _).mpr hbne
+            have h2 : (r != 0) = true := by rw [bne_iff_ne]; exact hr0
+            simp only [h1, hr, h2, if_true]
+          have H0 := R.heap
+          simp only at H0
+          rw [hroots] at H0
+          have := load_cv (Δ := c.ctx) (σ4 := cfg4.temps) CV0 hlenρ hcap hr0 hg hF' hk H0
+            (fun t ht => h4temps t (by omega)) hlo
+          rw [hcfg']
+          exact this
       · rw [← hctx]; exact hbody
 
 end Switch3
